@@ -159,6 +159,7 @@ def load(debug_assertions=False, tests=False):
         else:
             raw = dump(debug_assertions, tests)
         F = Facts(raw)
+        F.debug_assertions = bool(debug_assertions)
         from . import inline
         inline.apply(F)          # new private helpers (not in tables/known_functions.json) are spliced into their callers
         _cache[key] = F
